@@ -12,7 +12,7 @@ from fractions import Fraction
 import numpy as np
 from . import common
 
-THEOREM_FILES = ['NumqiProps/C20.lean']
+THEOREM_FILES = ['NumqiProps/C20.lean', 'NumqiProps/C20Decision.lean']
 GREP_FILES = ['NumqiModel/Generated/Thresholds20.lean']
 LEVEL = 'proof'
 RULE = ('index tables: every tuple pattern of length <= 4 (<= 5 thorough) exhaustively, dims 1..6; polarised minors on random integer '
@@ -33,31 +33,219 @@ GEN = os.path.join(common.LEAN, 'NumqiModel', 'Generated', 'Thresholds20.lean')
 # ---------------------------------------------------------------------------
 # translator: the three certificate comparisons and their default tolerances
 # ---------------------------------------------------------------------------
-_CMP = {ast.Lt: '<', ast.LtE: '≤', ast.Gt: '>', ast.GtE: '≥'}
-_BIN = {ast.Sub: '-', ast.Add: '+', ast.Mult: '*'}
-
-
 class Untranslatable(Exception):
-    pass
+    """the verdict of a certificate could not be brought to the normal form `measured OP affine(zero_eps)`"""
 
 
-def _lean_expr(node, rename):
-    if isinstance(node, ast.Name):
-        return rename.get(node.id, node.id)
-    if isinstance(node, ast.Constant) and isinstance(node.value, int) and node.value in (0, 1):
-        return str(node.value)
-    if isinstance(node, ast.BinOp) and type(node.op) in _BIN:
-        return f'({_lean_expr(node.left, rename)} {_BIN[type(node.op)]} {_lean_expr(node.right, rename)})'
-    if isinstance(node, (ast.Call, ast.Subscript, ast.Attribute)) and '<call>' in rename:
-        # the measured quantity (np.abs(np.diag(lu(..)[2])).min(), eigvalsh(..)[0], …) is the model's input `m`
-        return rename['<call>']
-    raise Untranslatable(ast.dump(node))
+# ---- semantic normalisation of a verdict -------------------------------------------------------------------------------------------
+# boolean normal form:  ('cmp', op, aff)  meaning  aff OP 0  with  aff = {'m': a, 'e': b, '1': c}  (measured quantity, zero_eps, constant),
+#                       ('const', bool)
+_FLIP = {'<': '>=', '<=': '>', '>': '<=', '>=': '<'}           # negation of a comparison (over the reals; the model has no NaN)
+_MIRROR = {'<': '>', '<=': '>=', '>': '<', '>=': '<='}         # multiplication of both sides by -1
+_PYCMP = {ast.Lt: '<', ast.LtE: '<=', ast.Gt: '>', ast.GtE: '>='}
+_LEANOP = {'<': '<', '<=': '≤', '>': '>', '>=': '≥'}
 
 
-def _lean_cmp(node, rename):
-    if not (isinstance(node, ast.Compare) and len(node.ops) == 1 and type(node.ops[0]) in _CMP):
-        raise Untranslatable(ast.dump(node))
-    return f'{_lean_expr(node.left, rename)} {_CMP[type(node.ops[0])]} {_lean_expr(node.comparators[0], rename)}'
+class _Norm:
+    def __init__(self, eps_name='zero_eps'):
+        self.eps_name = eps_name
+        self.measured = {}          # ast.dump -> node of the opaque (non-arithmetic) sub-expressions met on the way
+
+    # -- arithmetic: affine forms over {m, e, 1} with rational coefficients
+    def const(self, node):
+        a = self.aff(node)
+        if a['m'] != 0 or a['e'] != 0:
+            raise Untranslatable('non-constant factor')
+        return a['1']
+
+    def aff(self, node):
+        Z = Fraction(0)
+        if isinstance(node, ast.Constant) and isinstance(node.value, (int, float)) and not isinstance(node.value, bool):
+            return {'m': Z, 'e': Z, '1': Fraction(repr(node.value)) if isinstance(node.value, float) else Fraction(node.value)}
+        if isinstance(node, ast.Name) and node.id == self.eps_name:
+            return {'m': Z, 'e': Fraction(1), '1': Z}
+        if isinstance(node, ast.UnaryOp) and isinstance(node.op, (ast.USub, ast.UAdd)):
+            a = self.aff(node.operand)
+            return a if isinstance(node.op, ast.UAdd) else {k: -v for k, v in a.items()}
+        if isinstance(node, ast.BinOp) and isinstance(node.op, (ast.Add, ast.Sub)):
+            a, b = self.aff(node.left), self.aff(node.right)
+            sg = 1 if isinstance(node.op, ast.Add) else -1
+            return {k: a[k] + sg * b[k] for k in a}
+        if isinstance(node, ast.BinOp) and isinstance(node.op, ast.Mult):
+            for x, y in ((node.left, node.right), (node.right, node.left)):
+                try:
+                    c = self.const(x)
+                except Untranslatable:
+                    continue
+                a = self.aff(y)
+                return {k: c * v for k, v in a.items()}
+            raise Untranslatable('product of two non-constants')
+        if isinstance(node, ast.BinOp) and isinstance(node.op, ast.Div):
+            c = self.const(node.right)
+            if c == 0:
+                raise Untranslatable('division by zero')
+            return {k: v / c for k, v in self.aff(node.left).items()}
+        if isinstance(node, ast.Call) and isinstance(node.func, ast.Name) and node.func.id == 'float' and len(node.args) == 1 and not node.keywords:
+            return self.aff(node.args[0])
+        if isinstance(node, (ast.Call, ast.Subscript, ast.Attribute, ast.Name)):
+            # an opaque quantity: the measured one (np.linalg.eigvalsh(G)[0], the returned upper bound, …)
+            self.measured[ast.dump(node)] = node
+            if len(self.measured) > 1:
+                raise Untranslatable('more than one measured quantity')
+            return {'m': Fraction(1), 'e': Z, '1': Z}
+        raise Untranslatable('arithmetic: ' + type(node).__name__)
+
+    # -- booleans
+    def neg(self, b):
+        return ('const', not b[1]) if b[0] == 'const' else ('cmp', _FLIP[b[1]], b[2])
+
+    def boolean(self, node):
+        if isinstance(node, ast.Constant) and isinstance(node.value, bool):
+            return ('const', node.value)
+        if isinstance(node, ast.UnaryOp) and isinstance(node.op, ast.Not):
+            return self.neg(self.boolean(node.operand))
+        if isinstance(node, ast.Compare) and len(node.ops) == 1 and type(node.ops[0]) in _PYCMP:
+            a, b = self.aff(node.left), self.aff(node.comparators[0])
+            return ('cmp', _PYCMP[type(node.ops[0])], {k: a[k] - b[k] for k in a})
+        if isinstance(node, ast.IfExp):
+            t, a, b = self.boolean(node.test), self.boolean(node.body), self.boolean(node.orelse)
+            if a[0] == 'const' and b[0] == 'const':
+                return a if a[1] == b[1] else (t if a[1] else self.neg(t))
+            if a == b:
+                return a
+            raise Untranslatable('conditional verdict')
+        if isinstance(node, ast.Call) and not node.keywords and len(node.args) == 1 and \
+                ((isinstance(node.func, ast.Name) and node.func.id == 'bool') or (isinstance(node.func, ast.Attribute) and node.func.attr in ('bool_', 'bool'))):
+            return self.boolean(node.args[0])
+        raise Untranslatable('boolean: ' + type(node).__name__)
+
+
+class _Subst(ast.NodeTransformer):
+    def __init__(self, env):
+        self.env = env
+
+    def visit_Name(self, node):
+        if isinstance(node.ctx, ast.Load) and node.id in self.env:
+            v = self.env[node.id]
+            if v is None:
+                return node                 # assigned in a loop / branch: stays an opaque quantity
+            import copy
+            return copy.deepcopy(v)
+        return node
+
+
+def _assigned_names(stmts):
+    out = set()
+    for st in stmts:
+        for n in ast.walk(st):
+            if isinstance(n, (ast.Assign, ast.AugAssign, ast.AnnAssign)):
+                for t in (n.targets if isinstance(n, ast.Assign) else [n.target]):
+                    for x in ast.walk(t):
+                        if isinstance(x, ast.Name):
+                            out.add(x.id)
+            if isinstance(n, (ast.For, ast.comprehension)):
+                for x in ast.walk(n.target):
+                    if isinstance(x, ast.Name):
+                        out.add(x.id)
+    return out
+
+
+def _verdict_expr(fn, verdict_names=('ret', 'tag_rank_one')):
+    """symbolic execution of the straight-line part of the function: the expression returned (names replaced by what they were bound to).
+    Only the names that can carry the verdict (and what they are built from) are followed; `ret = ret, extra` (return_info) keeps the verdict."""
+    env = {}
+
+    def sub(node):
+        return _Subst(env).visit(__import__('copy').deepcopy(node))
+    body = list(fn.body)
+    ret = None
+    for st in body:
+        if isinstance(st, ast.Return):
+            ret = st.value
+            break
+        if isinstance(st, ast.Assign) and len(st.targets) == 1 and isinstance(st.targets[0], ast.Name):
+            name = st.targets[0].id
+            v = st.value
+            if isinstance(v, ast.Tuple) and v.elts and isinstance(v.elts[0], ast.Name) and v.elts[0].id == name:
+                continue                        # ret = ret, info
+            try:
+                env[name] = sub(v)
+            except Untranslatable:
+                env[name] = None
+            continue
+        if isinstance(st, ast.If):
+            names = _assigned_names([st])
+            b, o = st.body, st.orelse
+            def single(blk):
+                blk = [x for x in blk if not (isinstance(x, ast.Expr) and isinstance(x.value, ast.Constant))]
+                if len(blk) == 1 and isinstance(blk[0], ast.Assign) and len(blk[0].targets) == 1 and isinstance(blk[0].targets[0], ast.Name):
+                    return blk[0].targets[0].id, blk[0].value
+                return None
+            sb, so = single(b), single(o)
+            if sb and so and sb[0] == so[0]:
+                try:
+                    env[sb[0]] = ast.IfExp(test=sub(st.test), body=sub(sb[1]), orelse=sub(so[1]))
+                except Untranslatable:
+                    env[sb[0]] = None
+                continue
+            if sb and not o and isinstance(sb[1], ast.Tuple) and sb[1].elts and isinstance(sb[1].elts[0], ast.Name) and sb[1].elts[0].id == sb[0]:
+                continue                        # if return_info: ret = ret, info
+            if any(isinstance(x, ast.Return) for x in ast.walk(st)) and (names & set(verdict_names)):
+                raise Untranslatable('return inside a branch')
+            for n in names:
+                env[n] = None
+            continue
+        for n in _assigned_names([st]):
+            env[n] = None
+    if ret is None:
+        raise Untranslatable('no top-level return')
+    return sub(ret)
+
+
+def _signature_default(module, fname, arg, fn_ast):
+    """default value of a keyword: from the imported function (inspect.signature), falling back to folding the source text"""
+    try:
+        import importlib, inspect
+        f = getattr(importlib.import_module(module), fname)
+        prm = inspect.signature(f).parameters.get(arg)
+        if prm is None or prm.default is inspect.Parameter.empty:
+            return Fraction(0)              # no such keyword / no default: there is no slack
+        if isinstance(prm.default, (int, float)) and not isinstance(prm.default, bool):
+            return Fraction(repr(float(prm.default))) if isinstance(prm.default, float) else Fraction(prm.default)
+        raise Untranslatable('default of ' + arg)
+    except Untranslatable:
+        raise
+    except Exception:
+        names = [a.arg for a in fn_ast.args.args]
+        defaults = fn_ast.args.defaults
+        off = len(names) - len(defaults)
+        if arg not in names or names.index(arg) < off:
+            return Fraction(0)
+        return _Norm().const(defaults[names.index(arg) - off])
+
+
+def _rhs_text(be, c, eps='zero_eps'):
+    """`c + be*zero_eps` for small integer coefficients, written with 0, 1, +, - only (the model is generic over ordered rings)"""
+    table = {(1, -1): f'(1 - {eps})', (0, 1): eps, (0, 0): '0', (1, 0): '1', (1, 1): f'(1 + {eps})', (0, -1): f'(0 - {eps})',
+             (-1, 0): '(0 - 1)', (-1, 1): f'({eps} - 1)', (-1, -1): f'((0 - 1) - {eps})'}
+    if (c, be) not in table:
+        raise Untranslatable(f'threshold {c} + {be}*zero_eps is not of a recognised shape')
+    return table[(c, be)]
+
+
+def _normal_form(b, lhs_name):
+    """('cmp', op, a_m*m + a_e*e + a_0 OP 0)  ->  Lean text `lhs OP' rhs` with the measured quantity alone on the left"""
+    if b[0] == 'const':
+        raise Untranslatable('verdict is the constant %s' % b[1])
+    _, op, a = b
+    if a['m'] == 0:
+        raise Untranslatable('verdict does not depend on the measured quantity')
+    if a['m'] < 0:
+        op = _MIRROR[op]
+    be, c = -a['e'] / a['m'], -a['1'] / a['m']
+    if be.denominator != 1 or c.denominator != 1:
+        raise Untranslatable(f'threshold {c} + {be}*zero_eps is not of a recognised shape')
+    return f'{lhs_name} {_LEANOP[op]} {_rhs_text(int(be), int(c))}'
 
 
 def _func(tree, name):
@@ -67,31 +255,19 @@ def _func(tree, name):
     raise Untranslatable('function ' + name + ' not found')
 
 
-def _default(fn, arg):
-    names = [a.arg for a in fn.args.args]
-    defaults = fn.args.defaults
-    off = len(names) - len(defaults)
-    if arg not in names or names.index(arg) < off:
-        return Fraction(0)          # no such keyword / no default: there is no slack
-    i = names.index(arg)
-    d = defaults[i - off]
-    if not isinstance(d, ast.Constant) or not isinstance(d.value, (int, float)):
-        raise Untranslatable('default of ' + arg)
-    return Fraction(repr(d.value))
-
-
 def _extract_rank_one(src):
+    """certificate of detect_real_matrix_subspace_rank_one = "first returned value is False", as a condition on the returned bound"""
     fn = _func(ast.parse(src), 'detect_real_matrix_subspace_rank_one')
-    for n in ast.walk(fn):
-        if isinstance(n, ast.If) and any(isinstance(x, ast.Name) and x.id == 'upper_bound' for x in ast.walk(n.test)):
-            test = _lean_cmp(n.test, {})
-            b = n.body[0]
-            if not (isinstance(b, ast.Assign) and isinstance(b.value, ast.Constant) and isinstance(b.value.value, bool)):
-                raise Untranslatable('if body')
-            if b.value.value is True:      # the branch sets tag_rank_one=True: the certificate is the else branch
-                test = f'¬ ({test})'
-            return test, _default(fn, 'zero_eps')
-    raise Untranslatable('no comparison on upper_bound')
+    ret = _verdict_expr(fn)
+    if not (isinstance(ret, ast.Tuple) and len(ret.elts) == 2):
+        raise Untranslatable('does not return (tag, upper_bound)')
+    nm = _Norm()
+    tag = nm.boolean(ret.elts[0])
+    cert = nm.neg(tag)
+    # the measured quantity of the verdict must be the bound that is returned
+    if not nm.measured or ast.dump(ret.elts[1]) not in nm.measured:
+        raise Untranslatable('the verdict is not taken on the returned bound')
+    return _normal_form(cert, 'upper_bound'), _signature_default('numqi.matrix_space._numerical_range', 'detect_real_matrix_subspace_rank_one', 'zero_eps', fn)
 
 
 def _measure_kind(node):
@@ -99,7 +275,7 @@ def _measure_kind(node):
     `np.abs(np.diag(scipy.linalg.lu(X)[2])).min()` -> minAbsLUPivot (not rank revealing: the repaired defect 561406a); anything else -> other"""
     if isinstance(node, ast.Subscript) and isinstance(node.slice, ast.Constant) and node.slice.value == 0 \
             and isinstance(node.value, ast.Call) and isinstance(node.value.func, ast.Attribute) and node.value.func.attr == 'eigvalsh' \
-            and len(node.value.args) == 1 and isinstance(node.value.args[0], ast.Name):
+            and len(node.value.args) == 1 and not node.value.keywords:
         return 'smallestEigenvalue'
     if any(isinstance(x, ast.Attribute) and x.attr == 'lu' for x in ast.walk(node)):
         return 'minAbsLUPivot'
@@ -107,17 +283,25 @@ def _measure_kind(node):
 
 
 def _extract_lu(src, fname):
+    """certificate of the Gram-matrix tests = "returned value is True", as a condition on the measured quantity"""
     fn = _func(ast.parse(src), fname)
-    for n in ast.walk(fn):
-        if isinstance(n, ast.Assign) and len(n.targets) == 1 and isinstance(n.targets[0], ast.Name) and n.targets[0].id == 'ret' \
-                and isinstance(n.value, ast.Compare):
-            return _lean_cmp(n.value, {'<call>': 'm'}), _default(fn, 'zero_eps'), _measure_kind(n.value.left)
-    raise Untranslatable('no `ret = ... > zero_eps` in ' + fname)
+    ret = _verdict_expr(fn)
+    if isinstance(ret, ast.IfExp) and isinstance(ret.body, ast.Tuple):       # return (ret, info) if return_info else ret
+        ret = ret.orelse
+    if isinstance(ret, ast.Tuple):
+        raise Untranslatable('returns a tuple')
+    nm = _Norm()
+    cert = nm.boolean(ret)
+    kind = _measure_kind(next(iter(nm.measured.values()))) if nm.measured else 'other'
+    return _normal_form(cert, 'm'), _signature_default('numqi.matrix_space._hierarchy', fname, 'zero_eps', fn), kind
 
 
 _HDR = '''/- GENERATED by harness/c20.py (translate) from
    {repo}/python/numqi/matrix_space/_numerical_range.py and _hierarchy.py — do not edit.
-   The comparison operators and default tolerances of the three rank certificates, as they stand in the source. -/
+   The verdicts of the three rank certificates in normal form `measured OP threshold(zero_eps)` (negations pushed to the comparison,
+   constants folded, names resolved) and their default tolerances (inspect.signature of the imported functions).
+   `…Known = false`: the verdict could not be brought to the normal form — the certificate below is then never issued and the driver
+   answers `unknown`. -/
 namespace Numqi.Generated.Thresholds20
 
 /-- the routine that produces the quantity a Gram-matrix certificate compares with `zero_eps` -/
@@ -130,7 +314,9 @@ deriving DecidableEq, Repr
 _DEF = '''/-- `{pyname}`: certificate condition `{pyexpr}` -/
 def {name} {{α : Type}} [Zero α] [One α] [Add α] [Sub α] [Mul α] [LT α] [LE α]
     [DecidableRel (α := α) (· < ·)] [DecidableRel (α := α) (· ≤ ·)] ({args} : α) : Bool :=
-  decide ({expr})
+  {body}
+/-- whether the translator recognised the verdict -/
+def {name}Known : Bool := {known}
 /-- default `zero_eps = {eps}` -/
 def {name}EpsNum : Nat := {num}
 def {name}EpsDen : Nat := {den}
@@ -143,21 +329,25 @@ def translate(ctx=None):
     base = os.path.join(common.REPO, 'python', 'numqi', 'matrix_space')
     out = _HDR.format(repo='<repo>')
     items = []
+
+    def clean(ex):
+        return (type(ex).__name__ + ': ' + str(ex))[:120].replace('-/', '').replace('/-', '').replace('\n', ' ')
     try:
         t, e = _extract_rank_one(open(os.path.join(base, '_numerical_range.py')).read())
-        items.append(('rankOneCert', 'detect_real_matrix_subspace_rank_one', 'upper_bound zero_eps', t, e))
+        items.append(('rankOneCert', 'detect_real_matrix_subspace_rank_one', 'upper_bound zero_eps', t, e, True))
     except Exception as ex:
-        items.append(('rankOneCert', 'detect_real_matrix_subspace_rank_one (UNTRANSLATABLE: %s)' % str(ex)[:80].replace('-/', ''), 'upper_bound zero_eps', 'True', Fraction(0)))
+        items.append(('rankOneCert', 'detect_real_matrix_subspace_rank_one (UNKNOWN SHAPE: %s)' % clean(ex), '_upper_bound _zero_eps', 'unknown', Fraction(0), False))
     measures = {}
     for name, fname in (('hierarchyCert', 'has_rank_hierarchical_method'), ('abcCert', 'is_ABC_completely_entangled_subspace')):
         try:
             t, e, mk = _extract_lu(open(os.path.join(base, '_hierarchy.py')).read(), fname)
-            items.append((name, fname, 'm zero_eps', t, e)); measures[name] = mk
+            items.append((name, fname, 'm zero_eps', t, e, True)); measures[name] = mk
         except Exception as ex:
-            items.append((name, fname + ' (UNTRANSLATABLE: %s)' % str(ex)[:80].replace('-/', ''), 'm zero_eps', 'True', Fraction(0)))
+            items.append((name, fname + ' (UNKNOWN SHAPE: %s)' % clean(ex), '_m _zero_eps', 'unknown', Fraction(0), False))
             measures[name] = 'other'
-    for name, pyname, args, expr, eps in items:
-        out += _DEF.format(pyname=pyname, pyexpr=expr, name=name, args=args, expr=expr, eps=str(eps),
+    for name, pyname, args, expr, eps, known in items:
+        out += _DEF.format(pyname=pyname, pyexpr=expr, name=name, args=args, body=f'decide ({expr})' if known else 'false',
+                           known='true' if known else 'false', eps=str(eps),
                            num=abs(eps.numerator), den=eps.denominator, neg='true' if eps < 0 else 'false')
     for name, mk in measures.items():
         out += f'/-- the routine behind the measured quantity `m` of `{name}`, as it stands in the source -/\ndef {name}Kind : DecisionKind := .{mk}\n\n'
@@ -168,8 +358,9 @@ def translate(ctx=None):
             with open(GEN, 'w') as fh:
                 fh.write(out)
     if ctx is not None:
-        ctx.extra['translated'] = {name: dict(expr=expr, zero_eps=str(eps), decision_kind=measures.get(name)) for name, _, _, expr, eps in items}
+        ctx.extra['translated'] = {name: dict(expr=expr, zero_eps=str(eps), recognised=known, decision_kind=measures.get(name)) for name, _, _, expr, eps, known in items}
     translate.measures = measures
+    translate.known = {name: known for name, _, _, _, _, known in items}
     return items
 
 
@@ -1413,6 +1604,28 @@ def probe_planted(ctx):
                              + ('; the Gram matrix is singular but the decision on it is positive' if lu_only else ''), replay)
                 else:
                     ctx.probe_ok(('abc', dA, dB, dC, N, k, cplx))
+
+    # tripartite positive control (non-vacuity of the certificate at every level): a generic subspace of dimension 2 resp. 3 of a
+    # 2x2x2 / 2x2x3 system contains no product vector (the Segre variety has codimension 4 resp. 7); the certificate must be issued for
+    # at least one of the generic instances at each level, otherwise "sound" would hold vacuously
+    for dA, dB, dC, N in [(2, 2, 2, 2), (2, 2, 3, 3)]:
+        for k in ((1, 2) if ctx.quick() else (1, 2, 3)):
+            outs, last = [], None
+            for _ in range(4):
+                g = rng.normal(size=(N, dA, dB, dC)) + 1j * rng.normal(size=(N, dA, dB, dC))
+                q = np.linalg.qr(g.reshape(N, -1).T)[0].T.reshape(N, dA, dB, dC)
+                last = q
+                try:
+                    outs.append(bool(is_ABC_completely_entangled_subspace(list(q), hierarchy_k=k)))
+                except Exception as e:
+                    outs.append(f'{type(e).__name__}: {e}')
+            ctx.count('abc-positive-control', sum(1 for o in outs if o is True))
+            if not any(o is True for o in outs):
+                ctx.fail('abc-never-certifies', f'is_ABC_completely_entangled_subspace(hierarchy_k={k}) issues no certificate for 4 generic {N}-dimensional subspaces of a '
+                         f'{dA}x{dB}x{dC} system ({outs})', dict(op='is_ABC_completely_entangled_subspace', dims=[dA, dB, dC], N=N, hierarchy_k=k, complex=True,
+                                                                    basis_re=last.real.tolist(), basis_im=last.imag.tolist()))
+            else:
+                ctx.probe_ok(('abc-positive', dA, dB, dC, N, k))
 
 
 def probe_numrange(ctx):
